@@ -48,7 +48,18 @@ type Parser struct {
 	// escTimeout is a timeout for interpretting an Esc keypress vs an
 	// escape sequence
 	escTimeout *time.Timer
-	mu         sync.Mutex
+	// escPending is true while the last character handled was an ESC
+	// which has not been reported as an Escape key press; escGen tells
+	// the timer callbacks of successive ESCs apart. Both are guarded by mu
+	escPending bool
+	escGen     int
+	// escExpired is set by readRune when the timer had already run out by
+	// the time the next character was read. Only used by the run loop
+	escExpired bool
+	// finished is set once the run loop is done with the input, nothing
+	// may be emitted by a timer callback afterwards. Guarded by mu
+	finished bool
+	mu       sync.Mutex
 
 	oscData []rune
 	apcData []rune
@@ -121,6 +132,14 @@ outer:
 			r := p.readRune()
 			verifHook("run.read")
 			p.mu.Lock()
+			if p.escPending && p.escExpired {
+				// The timer of the pending ESC ran out before this
+				// character arrived, but its callback has not run
+				// yet: report the key press in its place
+				p.emit(C0(0x1B))
+				p.state = ground
+			}
+			p.escPending = false
 			p.state = anywhere(r, p)
 			if p.state == nil {
 				p.mu.Unlock()
@@ -132,6 +151,9 @@ outer:
 	if p.escTimeout != nil {
 		p.escTimeout.Stop()
 	}
+	p.mu.Lock()
+	p.finished = true
+	p.mu.Unlock()
 	verifHook("run.eof")
 	p.emit(EOF{})
 	verifHook("run.close")
@@ -150,7 +172,7 @@ func (p *Parser) WaitClose() {
 func (p *Parser) readRune() rune {
 	r, size, err := p.r.ReadRune()
 	if p.escTimeout != nil {
-		p.escTimeout.Stop()
+		p.escExpired = !p.escTimeout.Stop()
 	}
 	if r == unicode.ReplacementChar && size == 1 {
 		// If invalid UTF-8, let's read the byte and deliver
@@ -468,13 +490,23 @@ func anywhere(r rune, p *Parser) stateFn {
 			p.exit = nil
 		}
 		p.clear()
+		p.escPending = true
+		p.escGen += 1
+		gen := p.escGen
 		p.escTimeout = time.AfterFunc(10*time.Millisecond, func() {
 			verifHook("timer.fired")
+			p.mu.Lock()
+			defer p.mu.Unlock()
+			if !p.escPending || p.escGen != gen || p.finished {
+				// The run loop got here first and has dealt with
+				// this ESC, or the input is over
+				verifHook("timer.done")
+				return
+			}
+			p.escPending = false
 			p.emit(C0(0x1B))
 			verifHook("timer.emitted")
-			p.mu.Lock()
 			p.state = ground
-			p.mu.Unlock()
 			verifHook("timer.done")
 		})
 		return escape
